@@ -7,11 +7,14 @@
 //   geoidfile / magfile / gravfile  truncated / corrupted data files
 // Every op runs under a watchdog (alarm): a non-terminating call is reported as a failing input.
 #include "common.hpp"
+#include <set>
 #include "C13_entries.hpp"
+#include "C13_entries2.hpp"
 #include "C13_ctor.hpp"
 #include "C13_nn.hpp"
 #include "C13_text.hpp"
 #include "C13_files.hpp"
+#include "C13_sh.hpp"
 using namespace GeographicLib; using namespace gv; using namespace c13;
 
 // ---------------------------------------------------------------------------------------------------------------
@@ -38,6 +41,20 @@ static const std::vector<double>& specials() {
 
 static double sentinel(int k) { return frombits(0x7e37e43c8800759cULL + 16 * uint64_t(k)); }
 
+// outputs of the baseline call (all arguments at their valid generic values), per entry and per boolean-sentinel pass
+static const std::vector<double>* baseline(const Entry& e, int pass) {
+  static std::map<std::string, std::vector<double>> cache[2];
+  static std::set<std::string> failed;
+  auto it = cache[pass].find(e.name);
+  if (it != cache[pass].end()) return &it->second;
+  if (failed.count(e.name)) return nullptr;
+  std::vector<double> o(e.nout + 1);
+  for (int k = 0; k <= e.nout; ++k) o[k] = sentinel(k);
+  std::string ex;
+  if (!with_timeout(g_cpu_s, [&] { ex = guarded([&] { e.call(e.base.data(), o.data()); }); }) || !ex.empty()) { failed.insert(e.name); return nullptr; }
+  return &(cache[pass][e.name] = o);
+}
+
 static Reg r_sw("c13_sw", [](const Args& a) {
   register_all();
   auto it = entry_index().find(a[0]);
@@ -47,7 +64,7 @@ static Reg r_sw("c13_sw", [](const Args& a) {
   std::vector<double> x = e.base;
   if (pos >= int(x.size())) { emit("!nopos"); return; }
   if (pos >= 0) x[pos] = v;
-  std::string exc; std::string written(e.nout, '0'), isnan(e.nout, '0');
+  std::string exc; std::string written(e.nout, '0'), isnan(e.nout, '0'), same(e.nout, '1');
   Watch w;
   bool hung = false;
   for (int pass = 0; pass < 2 && !hung; ++pass) {
@@ -58,25 +75,38 @@ static Reg r_sw("c13_sw", [](const Args& a) {
     if (!with_timeout(g_cpu_s, [&] { ex = guarded([&] { e.call(x.data(), o.data()); }); })) { hung = true; break; }
     if (pass == 0) exc = ex;
     else if (ex != exc) bad("nondeterministic", "two identical calls: '" + exc + "' then '" + ex + "'");
+    // the outputs of the baseline call of the same pass (computed once per entry): an output that does not depend on the
+    // swept argument must come back with exactly the baseline's value
+    const std::vector<double>* ob = baseline(e, pass);
     for (int k = 0; k < e.nout; ++k) {
       if (bits(o[k]) != bits(sentinel(k))) written[k] = '1';
       if (std::isnan(o[k])) isnan[k] = '1';
+      if (!ob || bits(o[k]) != bits((*ob)[k])) same[k] = '0';
     }
     if (bits(o[e.nout]) != bits(sentinel(e.nout))) bad("harness", "entry wrote past its declared outputs");
   }
   if (hung) {
-    emit("!hang " + std::to_string(e.nout) + " w" + written + " n" + isnan);
+    emit("!hang " + std::to_string(e.nout) + " w" + written + " n" + isnan + " s" + same);
     char b[64]; std::snprintf(b, sizeof b, "%g", g_cpu_s);
     bad("hang", a[0] + " did not return within " + b + " s of CPU time (argument " + a[1] + " = " + d17(v) + ")" + (!(std::fabs(v) < 1e100) ? " [extreme]" : ""));
     ++hangs()[a[0]];
     return;
   }
-  emit((exc.empty() ? std::string("-") : exc) + " " + std::to_string(e.nout) + " w" + written + " n" + isnan);
+  emit((exc.empty() ? std::string("-") : exc) + " " + std::to_string(e.nout) + " w" + written + " n" + isnan + " s" + same);
   // property-level oracles that need no model: foreign exception type, outputs touched by a call that threw
   if (!exc.empty() && exc != "!E" && exc != "!A") bad("foreign-exception", a[0] + " threw " + exc);
   if (!exc.empty() && written.find('1') != std::string::npos)
     bad("output-modified-on-throw", a[0] + " threw but modified output arguments: written=" + written);
 });
+
+// ---------------------------------------------------------------------------------------------------------------
+// bookkeeping ops: the verdicts are computed in Lean (Corr/C13.lean)
+//   c13_selfcheck              labels and numeric codes of all keys of the Lean tables agree (executed natively by the driver)
+//   c13_entry name nin nout    one line per entry of the sweep table: must be a row of the Lean dependence table with these arities
+//   c13_entrycount n           ... and there are no further rows
+static Reg r_selfcheck("c13_selfcheck", [](const Args&) { emit("-"); });
+static Reg r_entry("c13_entry", [](const Args&) { emit("-"); });
+static Reg r_entrycount("c13_entrycount", [](const Args&) { emit("-"); });
 
 // ---------------------------------------------------------------------------------------------------------------
 // (entry, argument position) pairs with an *open* finding that aborts under UBSan: run in a forked child so that the
@@ -93,12 +123,18 @@ static bool isolate(const std::string& entry, int pos, double v) {
   if (!(std::fabs(v) < 2147483648.0) && entry == "DMS.EncodeDMS") return true;
   // F33: MGRS::CheckCoords lets a tiny negative northing through as row 0 (y / tile_ underflows to -0); Forward then indexes digits_[-1]
   if (pos == 1 && v < 0 && v > -1e-318 && (entry == "MGRS.Forward" || entry == "MGRS.ForwardLat")) return true;
+  // F78 (repaired by fb4697b: Intersect::All now throws GeographicErr for such a maxdist): still run in a child, so that a regression
+  // of the int conversion of ceil((maxdist + delta) / d3) is a failing input of this op and the sweep goes on
+  if (pos == 6 && !(std::fabs(v) < 5e11) && !std::isnan(v) && entry.compare(0, 13, "Intersect.All") == 0) return true;
   return false;
 }
 static void sweep_one(const std::string& entry, int pos, double v) {
   // each hang costs g_cpu_s of CPU: after two hangs of one entry point its remaining huge / infinite values are skipped
   // (counted in the evidence as skipped_after_two_hangs; nothing is skipped once the hanging loops are repaired)
   if (hangs()[entry] >= 2 && !std::isnan(v) && !(std::fabs(v) < 1e100)) { stat("skipped_after_two_hangs"); return; }
+  // Intersect::All with a legal but large maxdist is a legitimate computation whose cost grows with maxdist^2 (it lists every
+  // intersection in range): not a hang, and not swept
+  if (pos == 6 && std::fabs(v) >= 2e8 && std::fabs(v) < 5e11 && entry.compare(0, 13, "Intersect.All") == 0) { stat("skipped_quadratic_cost"); return; }
   Args a{entry, std::to_string(pos), hx(v)};
   if (isolate(entry, pos, v)) { stratum("sweep-isolated-known-ub"); run_isolated("c13_sw", a); } else runx("c13_sw", a);
 }
@@ -106,12 +142,20 @@ static void sweep_one(const std::string& entry, int pos, double v) {
 void gv::generate(const std::string& tier, uint64_t seed) {
   register_all();
   bool thorough = tier == "thorough";
+  // development aid: list the sweep table (name, number of inputs, number of outputs) and stop
+  if (std::getenv("C13_LIST")) { for (const Entry& e : entries()) std::printf("#ENTRY %s %d %d\n", e.name.c_str(), int(e.base.size()), e.nout); return; }
   g_watch_s = thorough ? 120 : 60;
   Rng r(seed);
   struct timespec ts0; clock_gettime(CLOCK_MONOTONIC, &ts0); long t0 = long(ts0.tv_sec * 1000 + ts0.tv_nsec / 1000000);
   // 1. sweep: every entry x every argument position x every special value (the table is finite: all of it, in both
   //    tiers; the k-th process of a run takes the k-th share, random off-grid values are added on top)
   int share = int(seed % 100), nshare = thorough ? 16 : 4;
+  if (share % nshare == 0) {
+    stratum("table-crosscheck");
+    run("c13_selfcheck", {});
+    for (const Entry& e : entries()) run("c13_entry", {e.name, std::to_string(e.base.size()), std::to_string(e.nout)});
+    run("c13_entrycount", {std::to_string(entries().size())});
+  }
   int idx = 0;
   for (const Entry& e : entries()) {
     if ((idx++ % nshare) != (share % nshare)) continue;
@@ -128,7 +172,7 @@ void gv::generate(const std::string& tier, uint64_t seed) {
   sample("sw GeodS.Direct 1 nan: lat2/azi2/m12/M12/M21/S12 stay finite, lon2 is NaN");
   auto now = [] { struct timespec ts; clock_gettime(CLOCK_MONOTONIC, &ts); return long(ts.tv_sec * 1000 + ts.tv_nsec / 1000000); };
   long t1 = now(); stat("ms_sweep", t1 - t0);
-  gen_ctor(r, thorough); long t2 = now(); stat("ms_ctor", t2 - t1);
+  gen_ctor(r, thorough); gen_sh(r, thorough); long t2 = now(); stat("ms_ctor", t2 - t1);
   gen_nn(r, thorough); long t3 = now(); stat("ms_nn", t3 - t2);
   gen_text(r, thorough); long t4 = now(); stat("ms_text", t4 - t3);
   gen_files(r, thorough); stat("ms_files", now() - t4);
